@@ -272,3 +272,22 @@ def assign_pairs(stmt):
         else:
             out.append((t, stmt.value))
     return out
+
+
+def first_action_on(func, receiver='self'):
+    """the first top-level statement of func that mentions `receiver`; the statements before it (logging, assertions on the
+    arguments, context set-up that does not involve the object) cannot observe or change its state.  None when a statement
+    before it can leave the function or nests statements that mention the receiver only partly."""
+    for st in body_without_docstring(func):
+        if any(isinstance(n, ast.Name) and n.id == receiver for n in ast.walk(st)):
+            return st
+        if any(isinstance(n, (ast.Return, ast.Raise, ast.Yield, ast.YieldFrom)) for n in ast.walk(st)):
+            return None
+    return None
+
+
+def core_body(func):
+    """body without the docstring and without inert statements (pass, assert, bare constants): what decides whether a method
+    is a plain getter / an abstract stub"""
+    return [st for st in body_without_docstring(func) if not isinstance(st, (ast.Pass, ast.Assert))
+            and not (isinstance(st, ast.Expr) and isinstance(st.value, ast.Constant))]
